@@ -76,7 +76,8 @@ func run() error {
 		if err != nil {
 			return err
 		}
-		_, args, err := args.Get()
+		// The optional path is the argument given to --init (before any "--")
+		args, _, err := args.Get()
 		if err != nil {
 			return err
 		}
